@@ -7,12 +7,18 @@
     goes through `lexLeftDelim`, `lexBeginTag`, `lexInsideTag` …, `lexRightDelim` and back to `lexText` — sends exactly:
     the LeftDelim item, the printed tokens of the expression, for every directive `|` Ident [`:` arg tokens (`,` arg
     tokens)*], the RightDelim item and EOF (each with its END offset).
+  * `print_cmd_roundtrip_bytes`: … and the file parser's `parsePrint` (→ `printLoop` → `directiveArgs`, Model/FileParser) on these
+    items behind the `{` gives the print node back modulo positions (expression, directive names, directive arguments), leaving
+    EOF; `print_cmd_injective_bytes`: two print commands with the same text are the same command.  The TAG ALONE: `beginTag`'s
+    dispatch to `parsePrint`, and the template / file around the tag, are not covered.
   Hypotheses: `NamesOk ff` of the expression and of every directive argument (Lemmas/LexPrintNames), and `DirNameOk`:
   the directive name is an identifier as the lexer reads it after `|` (ASCII letter or `_`, then letters / digits / `_`
   of any script) that is not a word of `builtinIdents` (`{$x|call}`, `{$x|if:1}` are rejected by the real parser too:
-  the lexer has ONE keyword table for the whole tag).
+  the lexer has ONE keyword table for the whole tag); for the parser half `CmdCanon` (`Canon` of the expression and of every
+  directive argument: literals in range, map keys ascending — what the expression parser returns).
 -/
 import SoyVerif.Props.C17b
+import SoyVerif.Model.FileParser
 
 set_option linter.unusedVariables false
 set_option linter.unusedSectionVars false
@@ -250,7 +256,7 @@ end
 theorem step_rbrace {inp q s} (h : InpAt inp q (125 :: s)) (w le its) :
     step .insideTag (L inp q q w le its) = some (some .rightDelim, L inp (q + 1) q 1 le its) := by
   simp only [step, lexInsideTag, next_L h (by decide), Option.bind_eq_bind, Option.bind_some]
-  simp [isSpaceEOL, isSpace, isEndOfLine, lexInsideTagMid]
+  simp [Lex.isSpaceEOL, Lex.isSpace, Lex.isEndOfLine, lexInsideTagMid]
 
 /-- `lexRightDelim` (single braces): the RightDelim item, back to `lexText` -/
 theorem step_rightDelim {inp q s} (h : InpAt inp q (125 :: s)) (le its) :
@@ -481,6 +487,310 @@ theorem lex_print_cmd (arg : Expr) (dirs : List Directive) (h : CmdOk ff arg dir
     ∃ items, lexAll (printPrint ff arg dirs) false = .items items ∧
       items.map Item.tk = ⟨.tLeftDelim, [123]⟩ :: (unsp (piecesBody ff arg dirs) ++ [⟨.tRightDelim, [125]⟩, ⟨.tEOF, []⟩]) :=
   ⟨_, lex_print_cmd_items ff LT arg dirs h, by simp [cmdItems, emitT_tk, Item.tk]⟩
+
+end
+
+/-! # the PARSER half: `parsePrint` on the tokens of a print command -/
+
+section
+open SoyVerif.Model.FileParser (FState FP liftP parsePrint printLoop directiveArgs parseExpr0 Node)
+open SoyVerif.Lemmas.ParserRound
+
+/-- a directive without positions -/
+def eraseDir (d : Directive) : Directive := ⟨0, d.name, d.args.map erase⟩
+
+def tRD : Tk := ⟨.tRightDelim, [125]⟩
+
+theorem liftP_ok {α : Type} {x : P α} {st : FState} {a : α} {p' : PState} (h : x st.p = .ok (a, p')) :
+    liftP x st = .ok (a, { st with p := p' }) := by
+  simp [liftP, h]
+
+theorem fbind_ok {α β : Type} {x : FP α} {f : α → FP β} {st st' : FState} {a : α}
+    (h : x st = .ok (a, st')) : (x >>= f) st = f a st' := by
+  show (StateT.bind x f) st = _
+  unfold StateT.bind
+  simp only [h]
+  rfl
+
+/-- what may follow an expression inside a print tag -/
+def isTagStop (t : ItemType) : Prop := t = .tPipe ∨ t = .tComma ∨ t = .tRightDelim
+
+variable (ff : UInt64 → Bytes) (pf : Bytes → Option UInt64) (T : TableOK)
+include T
+
+/-- an expression in front of `|`, `,` or `}` -/
+theorem expr_tagstop (e : Expr) (hC : Canon ff pf e) (h : Tk) (ht : isTagStop h.typ) (rest : List Tk) (ef : Nat)
+    (hF : 1 + 8 * (toks ff e).length ≤ ef) (st : FState) (hst : At st.p (toks ff e ++ h :: rest)) :
+    ∃ r p2, parseExpr0 pf ef st = .ok (r, { st with p := p2 }) ∧ erase r = erase e ∧ At1 p2 (h :: rest) := by
+  have hb : isBinaryOp h.typ = false := by
+    rw [isBinaryOp_eq T]; rcases ht with e | e | e <;> rw [e] <;> rfl
+  have hq : h.typ ≠ .tTernIf := by rcases ht with e | e | e <;> rw [e] <;> simp
+  have hok : okAfter e h.typ := ⟨by rcases ht with e | e | e <;> rw [e] <;> simp [noAccess], edgeOk_of_stop hb hq⟩
+  have hs : Stops 0 h.typ := ⟨Or.inl hb, fun _ => hq⟩
+  obtain ⟨r, p2, h2, he, h2a⟩ := aAll pf T e 0 (toks ff e) h rest 0 1 ef (Post e (h :: rest)) st.p
+    (SoyVerif.Lemmas.ParserToks.slot_plain ff pf e (SoyVerif.Lemmas.ParserToks.renders_toks ff pf e hC)) (Nat.zero_le _)
+    (fun _ => hok) (cont_stop pf hs) hst hF
+  exact ⟨r, p2, liftP_ok h2, he, h2a⟩
+
+/-- the tokens of the arguments of a directive: each behind a separator (`:` the first, `,` the others) -/
+def dargToks (sep : Tk) : List Expr → List Tk
+  | [] => []
+  | a :: r => sep :: (toks ff a ++ dargToks tComma r)
+
+omit T in
+theorem unsp_dargsTail : ∀ r : List Expr, unsp (piecesDArgsTail ff r) = dargToks ff tComma r
+  | [] => rfl
+  | a :: r => by simp [piecesDArgsTail, unsp, unsp_append, dargToks, toks, unsp_dargsTail r]
+
+omit T in
+theorem unsp_dargs (args : List Expr) : unsp (piecesDArgs ff args) = dargToks ff tColon args := by
+  cases args with
+  | nil => rfl
+  | cons a r => simp [piecesDArgs, unsp, unsp_append, dargToks, toks, unsp_dargsTail ff r]
+
+/-- `directiveArgs` reads the arguments and stops in front of `|` or `}` -/
+theorem directiveArgs_rt (ef : Nat) (h : Tk) (hh : h.typ = .tPipe ∨ h.typ = .tRightDelim) (rest : List Tk) :
+    ∀ (r : List Expr) (sep : Tk) (acc : List Expr) (fuel : Nat) (st : FState),
+      (sep.typ = .tColon ∨ sep.typ = .tComma) → (∀ a ∈ r, Canon ff pf a ∧ 1 + 8 * (toks ff a).length ≤ ef) → r.length < fuel →
+      At st.p (dargToks ff sep r ++ h :: rest) →
+      ∃ args' p2, directiveArgs pf ef fuel acc st = .ok (acc ++ args', { st with p := p2 }) ∧
+        args'.map erase = r.map erase ∧ At1 p2 (h :: rest)
+  | [], sep, acc, fuel, st, _, _, hf, hst => by
+    obtain ⟨fuel, rfl⟩ : ∃ f, fuel = f + 1 := ⟨fuel - 1, by omega⟩
+    have hst' : At st.p (h :: rest) := by simpa [dargToks] using hst
+    obtain ⟨it, p1, hn, ht, _, hj⟩ := next_at hst'
+    obtain ⟨p2, hb, h2⟩ := backup_just hj
+    have hn' : FileParser.next st = .ok (it, { st with p := p1 }) := liftP_ok hn
+    have hb' : FileParser.backup { st with p := p1 } = .ok ((), { st with p := p2 }) := liftP_ok hb
+    have hne : (it.typ == ItemType.tColon || it.typ == ItemType.tComma) = false := by
+      rw [ht]; rcases hh with e | e <;> rw [e] <;> rfl
+    refine ⟨[], p2, ?_, rfl, ?_⟩
+    · unfold directiveArgs
+      rw [fbind_ok hn']
+      simp only [hne, Bool.false_eq_true, if_false]
+      rw [fbind_ok hb']
+      simp; rfl
+    · have : it.tk = h := by cases h; cases it; simp_all [Item.tk]
+      rw [← this]; exact h2
+  | a :: r, sep, acc, fuel, st, hsep, hc, hf, hst => by
+    obtain ⟨fuel, rfl⟩ : ∃ f, fuel = f + 1 := ⟨fuel - 1, by omega⟩
+    have hst' : At st.p (sep :: (toks ff a ++ (dargToks ff tComma r ++ h :: rest))) := by
+      simpa [dargToks] using hst
+    obtain ⟨it, p1, hn, ht, _, hj⟩ := next_at hst'
+    have hn' : FileParser.next st = .ok (it, { st with p := p1 }) := liftP_ok hn
+    have hyes : (it.typ == ItemType.tColon || it.typ == ItemType.tComma) = true := by
+      rw [ht]; rcases hsep with e | e <;> rw [e] <;> rfl
+    obtain ⟨hca, hfa⟩ := hc a (List.mem_cons_self ..)
+    -- what follows the argument: `,` (more arguments) or the follower of the directive
+    obtain ⟨nx, rest', hnx, hstop⟩ : ∃ nx rest', dargToks ff tComma r ++ h :: rest = nx :: rest' ∧ isTagStop nx.typ := by
+      cases r with
+      | nil => exact ⟨h, rest, rfl, by rcases hh with e | e <;> simp [isTagStop, e]⟩
+      | cons b r' => exact ⟨tComma, toks ff b ++ (dargToks ff tComma r' ++ h :: rest), by simp [dargToks], Or.inr (Or.inl rfl)⟩
+    obtain ⟨e', p2, h2, he, h2a⟩ := expr_tagstop ff pf T a hca nx hstop rest' ef hfa { st with p := p1 }
+      (by rw [← hnx]; exact hj.at)
+    have ih := directiveArgs_rt ef h hh rest r tComma (acc ++ [e']) fuel { st with p := p2 } (Or.inr rfl)
+      (fun x hx => hc x (List.mem_cons_of_mem _ hx)) (by simp at hf; omega) (by rw [hnx]; exact h2a.at)
+    obtain ⟨args', p3, h3, h3e, h3a⟩ := ih
+    refine ⟨e' :: args', p3, ?_, by simp [he, h3e], h3a⟩
+    unfold directiveArgs
+    rw [fbind_ok hn']
+    simp only [hyes, if_true]
+    rw [fbind_ok h2, h3]
+    simp
+
+/-- the fuel of the expression parser suffices for every expression of the command -/
+def ExprFuel (ef : Nat) (arg : Expr) (dirs : List Directive) : Prop :=
+  1 + 8 * (toks ff arg).length ≤ ef ∧ ∀ d ∈ dirs, ∀ a ∈ d.args, 1 + 8 * (toks ff a).length ≤ ef
+
+/-- every expression of the command is one the expression parser returns (literals in range, map keys ascending) -/
+def CmdCanon (arg : Expr) (dirs : List Directive) : Prop :=
+  Canon ff pf arg ∧ ∀ d ∈ dirs, ∀ a ∈ d.args, Canon ff pf a
+
+omit T in
+theorem unsp_dirs_cons (d : Directive) (r : List Directive) :
+    unsp (piecesDirs ff (d :: r)) = tPipe :: tIdent d.name :: (dargToks ff tColon d.args ++ unsp (piecesDirs ff r)) := by
+  simp [piecesDirs, piecesDir, unsp, unsp_append, unsp_dargs]
+
+/-- `printLoop` reads the directives and the closing `}` -/
+theorem printLoop_rt (ef : Nat) (pos : Nat) (expr : Expr) (rest : List Tk) :
+    ∀ (ds : List Directive) (acc : List Directive) (fuel : Nat) (st : FState),
+      (∀ d ∈ ds, ∀ a ∈ d.args, Canon ff pf a ∧ 1 + 8 * (toks ff a).length ≤ ef) →
+      (∀ d ∈ ds, d.args.length + ds.length + 1 < fuel) →  ds.length < fuel →
+      At st.p (unsp (piecesDirs ff ds) ++ tRD :: rest) →
+      ∃ ds' p2, printLoop pf ef pos expr fuel acc st = .ok (Node.print pos expr (acc ++ ds'), { st with p := p2 }) ∧
+        ds'.map eraseDir = ds.map eraseDir ∧ At p2 rest
+  | [], acc, fuel, st, _, _, hf, hst => by
+    obtain ⟨fuel, rfl⟩ : ∃ f, fuel = f + 1 := ⟨fuel - 1, by omega⟩
+    have hst' : At st.p (tRD :: rest) := by simpa [piecesDirs, unsp] using hst
+    obtain ⟨it, p1, hn, ht, _, hj⟩ := next_at hst'
+    have hn' : FileParser.next st = .ok (it, { st with p := p1 }) := liftP_ok hn
+    have ht' : it.typ = .tRightDelim := ht
+    refine ⟨[], p1, ?_, rfl, hj.at⟩
+    unfold printLoop
+    rw [fbind_ok hn']
+    simp [ht']
+    rfl
+  | d :: r, acc, fuel, st, hc, hfa, hf, hst => by
+    obtain ⟨fuel, rfl⟩ : ∃ f, fuel = f + 1 := ⟨fuel - 1, by omega⟩
+    rw [unsp_dirs_cons] at hst
+    have hst' : At st.p (tPipe :: tIdent d.name :: (dargToks ff tColon d.args ++ (unsp (piecesDirs ff r) ++ tRD :: rest))) := by
+      simpa using hst
+    obtain ⟨it, p1, hn, ht, _, hj⟩ := next_at hst'
+    have hn' : FileParser.next st = .ok (it, { st with p := p1 }) := liftP_ok hn
+    have ht' : it.typ = .tPipe := ht
+    obtain ⟨id, p2, he, _, hidv, hj2⟩ := expect_at hj.at
+    have he' : FileParser.expect .tIdent { st with p := p1 } = .ok (id, { st with p := p2 }) := liftP_ok he
+    have hidv' : id.val = d.name := hidv
+    -- the follower of the arguments: the next `|` or the closing `}`
+    obtain ⟨nx, rest', hnx, hh⟩ : ∃ nx rest', unsp (piecesDirs ff r) ++ tRD :: rest = nx :: rest' ∧
+        (nx.typ = .tPipe ∨ nx.typ = .tRightDelim) := by
+      cases r with
+      | nil => exact ⟨tRD, rest, by simp [piecesDirs, unsp], Or.inr rfl⟩
+      | cons d' r' =>
+        exact ⟨tPipe, tIdent d'.name :: (dargToks ff tColon d'.args ++ (unsp (piecesDirs ff r') ++ tRD :: rest)),
+          by rw [unsp_dirs_cons]; simp, Or.inl rfl⟩
+    have hfd := hfa d (List.mem_cons_self ..)
+    obtain ⟨args', p3, h3, h3e, h3a⟩ := directiveArgs_rt ff pf T ef nx hh rest' d.args tColon [] fuel { st with p := p2 }
+      (Or.inl rfl) (hc d (List.mem_cons_self ..)) (by simp at hfd; omega) (by rw [← hnx]; exact hj2.at)
+    have ih := printLoop_rt ef pos expr rest r (acc ++ [{ pos := it.pos, name := id.val, args := args' }]) fuel { st with p := p3 }
+      (fun x hx => hc x (List.mem_cons_of_mem _ hx))
+      (fun x hx => by have := hfa x (List.mem_cons_of_mem _ hx); simp at this ⊢; omega) (by simp at hf; omega)
+      (by rw [hnx]; exact h3a.at)
+    obtain ⟨ds', p4, h4, h4e, h4a⟩ := ih
+    refine ⟨{ pos := it.pos, name := id.val, args := args' } :: ds', p4, ?_, ?_, h4a⟩
+    · unfold printLoop
+      rw [fbind_ok hn']
+      have hnr : (it.typ == ItemType.tRightDelim) = false := by rw [ht']; rfl
+      have hyp : (it.typ == ItemType.tPipe) = true := by rw [ht']; rfl
+      simp only [hnr, hyp, Bool.false_eq_true, if_false, if_true]
+      rw [fbind_ok he']
+      simp only [List.nil_append] at h3
+      rw [fbind_ok h3, h4]
+      simp
+    · simp [eraseDir, hidv', h3e, h4e]
+
+/-- TOKENS → TREE: `parsePrint` (the print tag's own parser: the token in front — `print`, or the first token of the
+    expression backed up — has been dealt with by `beginTag`) on the tokens of the body and the closing `}` gives the
+    print node back, modulo positions, and leaves the rest of the stream -/
+theorem parsePrint_rt (arg : Expr) (dirs : List Directive) (hC : CmdCanon ff pf arg dirs) (ef fuel : Nat)
+    (hE : ExprFuel ff ef arg dirs) (hf : ∀ d ∈ dirs, d.args.length + dirs.length + 1 < fuel) (hf' : dirs.length < fuel)
+    (token : Item) (rest : List Tk) (st : FState) (hst : At st.p (unsp (piecesBody ff arg dirs) ++ tRD :: rest)) :
+    ∃ e' ds' p2, parsePrint pf ef fuel token st = .ok (Node.print token.pos e' ds', { st with p := p2 }) ∧
+      erase e' = erase arg ∧ ds'.map eraseDir = dirs.map eraseDir ∧ At p2 rest := by
+  obtain ⟨nx, rest', hnx, hh⟩ : ∃ nx rest', unsp (piecesDirs ff dirs) ++ tRD :: rest = nx :: rest' ∧ isTagStop nx.typ := by
+    cases dirs with
+    | nil => exact ⟨tRD, rest, by simp [piecesDirs, unsp], Or.inr (Or.inr rfl)⟩
+    | cons d' r' =>
+      exact ⟨tPipe, tIdent d'.name :: (dargToks ff tColon d'.args ++ (unsp (piecesDirs ff r') ++ tRD :: rest)),
+        by rw [unsp_dirs_cons]; simp, Or.inl rfl⟩
+  have hst' : At st.p (toks ff arg ++ nx :: rest') := by
+    rw [← hnx]; simpa [piecesBody, unsp_append, toks] using hst
+  obtain ⟨e', p1, h1, he, h1a⟩ := expr_tagstop ff pf T arg hC.1 nx hh rest' ef hE.1 st hst'
+  obtain ⟨ds', p2, h2, h2e, h2a⟩ := printLoop_rt ff pf T ef token.pos e' rest dirs [] fuel { st with p := p1 }
+    (fun d hd a ha => ⟨hC.2 d hd a ha, hE.2 d hd a ha⟩) hf hf' (by rw [hnx]; exact h1a.at)
+  refine ⟨e', ds', p2, ?_, he, h2e, h2a⟩
+  unfold parsePrint
+  rw [fbind_ok h1]
+  simpa using h2
+
+/-! ### the fuel -/
+
+omit T in
+theorem len_dargs : ∀ (r : List Expr) (sep : Tk), r.length ≤ (dargToks ff sep r).length ∧
+    ∀ a ∈ r, (toks ff a).length ≤ (dargToks ff sep r).length
+  | [], _ => ⟨Nat.le_refl _, fun a h => by cases h⟩
+  | b :: r, sep => by
+    obtain ⟨i1, i2⟩ := len_dargs r tComma
+    refine ⟨by simp [dargToks]; omega, ?_⟩
+    intro a ha
+    simp only [dargToks, List.length_cons, List.length_append]
+    rcases List.mem_cons.mp ha with rfl | ha
+    · omega
+    · have := i2 a ha; omega
+
+omit T in
+theorem len_dirs : ∀ (ds : List Directive), ds.length ≤ (unsp (piecesDirs ff ds)).length ∧
+    ∀ d ∈ ds, (dargToks ff tColon d.args).length ≤ (unsp (piecesDirs ff ds)).length
+  | [] => ⟨Nat.le_refl _, fun d h => by cases h⟩
+  | e :: r => by
+    obtain ⟨i1, i2⟩ := len_dirs r
+    rw [unsp_dirs_cons]
+    refine ⟨by simp; omega, ?_⟩
+    intro d hd
+    simp only [List.length_cons, List.length_append]
+    rcases List.mem_cons.mp hd with rfl | hd
+    · omega
+    · have := i2 d hd; omega
+
+omit T in
+/-- 8 per token (+1) for the expression parser, 2 per token (+2) for the loops of the tag -/
+theorem fuel_ok (arg : Expr) (dirs : List Directive) (n : Nat) (hn : (unsp (piecesBody ff arg dirs)).length ≤ n) :
+    ExprFuel ff (8 * n + 1) arg dirs ∧ (∀ d ∈ dirs, d.args.length + dirs.length + 1 < 2 * n + 2) ∧ dirs.length < 2 * n + 2 := by
+  have hb : (unsp (piecesBody ff arg dirs)).length = (toks ff arg).length + (unsp (piecesDirs ff dirs)).length := by
+    simp [piecesBody, unsp_append, toks]
+  obtain ⟨d1, d2⟩ := len_dirs ff dirs
+  refine ⟨⟨by omega, ?_⟩, ?_, by omega⟩
+  · intro d hd a ha
+    have := (len_dargs ff d.args tColon).2 a ha
+    have := d2 d hd
+    omega
+  · intro d hd
+    have := (len_dargs ff d.args tColon).1
+    have := d2 d hd
+    omega
+
+end
+
+/-! ## from bytes to the print node, and injectivity -/
+
+section
+open SoyVerif.Model.FileParser (FState parsePrint Node)
+variable (ff : UInt64 → Bytes) (pf : Bytes → Option UInt64) (LT : LexTableOK) (T : TableOK)
+include LT T
+
+/-- C17 for PRINT COMMANDS, from bytes to tree (the tag alone): the text `PrintNode.String()` writes, lexed by `lex` (file
+    mode) and — behind its `{` — parsed by the file parser's `parsePrint` (models), gives the print node back modulo
+    positions: the expression, and every directive with its name and its arguments; what is left in the stream is EOF.
+    (Above it, not covered: `beginTag`'s dispatch to `parsePrint` — it reads the first token of the expression and backs
+    it up, or reads `print` —, and the template and file around the tag.) -/
+theorem print_cmd_roundtrip_bytes (arg : Expr) (dirs : List Directive) (hN : CmdOk ff arg dirs) (hC : CmdCanon ff pf arg dirs)
+    (token : Item) :
+    ∃ items e' ds' p2, lexAll (printPrint ff arg dirs) false = .items items ∧
+      parsePrint pf (8 * items.length + 1) (2 * items.length + 2) token { p := initState items.tail } =
+        .ok (Node.print token.pos e' ds', { p := p2 }) ∧
+      erase e' = erase arg ∧ ds'.map eraseDir = dirs.map eraseDir ∧ At p2 [⟨.tEOF, []⟩] := by
+  obtain ⟨items, hl, ht⟩ := lex_print_cmd ff LT arg dirs hN
+  cases items with
+  | nil => simp at ht
+  | cons x its =>
+    simp only [List.map_cons, List.cons.injEq] at ht
+    have hlen : (unsp (piecesBody ff arg dirs)).length ≤ (x :: its).length := by
+      have := congrArg List.length ht.2
+      simp at this ⊢; omega
+    obtain ⟨f1, f2, f3⟩ := fuel_ok ff arg dirs (x :: its).length hlen
+    have hst : At (initState its) (unsp (piecesBody ff arg dirs) ++ tRD :: [⟨.tEOF, []⟩]) := by
+      have := at_init its
+      rw [ht.2] at this
+      simpa [tRD] using this
+    obtain ⟨e', ds', p2, h1, h2, h3, h4⟩ := parsePrint_rt ff pf T arg dirs hC _ _ f1 f2 f3 token [⟨.tEOF, []⟩]
+      { p := initState its } hst
+    exact ⟨x :: its, e', ds', p2, hl, h1, h2, h3, h4⟩
+
+/-- C17, the statement of the property for print commands: two print commands (expression and directives with their
+    arguments) that print the same TEXT are the same command, modulo positions -/
+theorem print_cmd_injective_bytes (a b : Expr) (da db : List Directive) (hNa : CmdOk ff a da) (hNb : CmdOk ff b db)
+    (hCa : CmdCanon ff pf a da) (hCb : CmdCanon ff pf b db) (h : printPrint ff a da = printPrint ff b db) :
+    erase a = erase b ∧ da.map eraseDir = db.map eraseDir := by
+  obtain ⟨i1, e1, d1, p1, hl1, hp1, he1, hd1, _⟩ := print_cmd_roundtrip_bytes ff pf LT T a da hNa hCa Item.zero
+  obtain ⟨i2, e2, d2, p2, hl2, hp2, he2, hd2, _⟩ := print_cmd_roundtrip_bytes ff pf LT T b db hNb hCb Item.zero
+  rw [h, hl2] at hl1
+  injection hl1 with hi
+  subst hi
+  rw [hp2] at hp1
+  injection hp1 with hp1
+  simp only [Prod.mk.injEq, Node.print.injEq] at hp1
+  obtain ⟨⟨_, rfl, rfl⟩, _⟩ := hp1
+  exact ⟨by rw [← he1, ← he2], by rw [← hd1, ← hd2]⟩
 
 end
 
